@@ -77,10 +77,12 @@ def check(repo: Repo, rep: Report) -> None:
     # B6
     inner = repo.fn(SC.INNER, "InnerSubscription.dispose")
     rem = [s for s in sites(inner) if isinstance(s.node, ast.Call) and dotted(s.node.func) == "self.subject.observers.remove"]
-    ok = len(rem) == 1 and u(rem[0].node.args[0]) == "self.observer" and has_guard(rem[0].ctx, "self.observer", True) \
-        and any(u(e) == "self.observer in self.subject.observers" and p for e, p in rem[0].ctx.guards)
+    from ..rules import expanded_guards
+    rg = expanded_guards(inner, rem[0].ctx) if rem else []
+    ok = len(rem) == 1 and u(rem[0].node.args[0]) == "self.observer" and any(u(e) == "self.observer" and p for e, p in rg) \
+        and any(u(e) == "self.observer in self.subject.observers" and p for e, p in rg)
     # the only other condition allowed on the removal is "the subject has not been disposed" (its list is gone then)
-    extra = [(u(e), p) for e, p in (rem[0].ctx.guards if rem else ()) if u(e) not in ("self.observer", "self.observer in self.subject.observers")]
+    extra = [(u(e), p) for e, p in rg if u(e) not in ("self.observer", "self.observer in self.subject.observers")]
     ok = ok and all(t == "self.subject.is_disposed" and not p for t, p in extra)
     rep.ob("B6-inner-subscription", inner, "remove(self.observer) if present and still set", ok,
            "InnerSubscription.dispose does not remove exactly its own observer (guarded by presence): unsubscribing removes "
